@@ -84,8 +84,27 @@ structure Addr where
   wildcard : Bool
 deriving DecidableEq, Repr, Inhabited
 
-/-- `Value` restricted to the variants the process image deals with; every other variant
-(TIME, STRING, arrays, …) is `other`. -/
+/-- The date and time types.  `TIME`, `DATE`, `TOD`, `DT` occupy a DWord of the image, the `L…`
+variants an LWord (`io_size_for_type`, `size_of_type`). -/
+inductive TKind | time | date | tod | dt | ltime | ldate | ltod | ldt
+deriving DecidableEq, Repr, Inhabited
+
+/-- Is it one of the 64-bit variants? -/
+def TKind.long : TKind → Bool
+  | .ltime | .ldate | .ltod | .ldt => true
+  | _ => false
+
+/-- Payload units per image count: `Value::Time` holds nanoseconds and travels as milliseconds
+(`Duration::as_millis` / `from_millis`); `DateValue`, `TimeOfDayValue`, `DateTimeValue` hold the ticks
+themselves, the long variants the nanoseconds themselves. -/
+def TKind.scale : TKind → Int
+  | .time => 1000000
+  | _ => 1
+
+/-- `Value` restricted to the variants the process image deals with: `tick k n` is the date/time
+variant of kind `k` with `i64` payload `n` (`Duration.nanos`, `ticks`, `nanos`), `enum n` is
+`Value::Enum` with `numeric_value = n` (the names are dropped); every other variant (STRING,
+arrays, …) is `other`. -/
 inductive Value
   | bool (b : Bool)
   | sint (v : Int) | int (v : Int) | dint (v : Int) | lint (v : Int)
@@ -93,6 +112,8 @@ inductive Value
   | real (bits : Nat) | lreal (bits : Nat)
   | byte (v : Nat) | word (v : Nat) | dword (v : Nat) | lword (v : Nat)
   | char (v : Nat) | wchar (v : Nat)
+  | tick (k : TKind) (n : Int)
+  | enum (n : Int)
   | other (tag : Nat)
 deriving DecidableEq, Repr, Inhabited
 
@@ -115,6 +136,8 @@ def Value.WF : Value → Prop
   | .lword v => v < 18446744073709551616
   | .char v => v < 256
   | .wchar v => v < 65536
+  | .tick _ n => -9223372036854775808 ≤ n ∧ n < 9223372036854775808
+  | .enum n => -9223372036854775808 ≤ n ∧ n < 9223372036854775808
   | .other _ => True
 
 /-- Error classes (`RuntimeError` variants that can occur here); `shiftPanic` is the dev-profile
@@ -247,12 +270,11 @@ def storedBytes : Size → Value → Option (List Nat)
 
 /-! ## Typed bindings: `coerce_from_io`, `coerce_to_io` -/
 
-/-- The 17 elementary `TypeId`s the coercions know; `time` stands for the 32-bit date and time types
-(TIME, DATE, TOD, DT), `ltime` for their 64-bit variants — the compiler accepts `AT` on them, the
-coercions do not know them — and `other` for any other type. -/
+/-- The 25 elementary `TypeId`s the coercions know: the 17 bit/integer/bit-string/character/real
+types and the 8 date and time types `tick k`; `other` stands for any other type. -/
 inductive Ty
   | bool | sint | usint | byte | char | int | uint | word | wchar
-  | dint | udint | dword | real | lint | ulint | lword | lreal | time | ltime | other
+  | dint | udint | dword | real | lint | ulint | lword | lreal | tick (k : TKind) | other
 deriving DecidableEq, Repr, Inhabited
 
 /-- `expected_size_for_type`. -/
@@ -262,7 +284,8 @@ def expectedSize : Ty → Option Size
   | .int | .uint | .word | .wchar => some .word
   | .dint | .udint | .dword | .real => some .dword
   | .lint | .ulint | .lword | .lreal => some .lword
-  | .time | .ltime | .other => none
+  | .tick k => some (if k.long then .lword else .dword)
+  | .other => none
 
 /-- `x as iN` for an `N`-bit unsigned `x` (two's complement reinterpretation). -/
 def asSigned (bits : Nat) (x : Nat) : Int :=
@@ -291,6 +314,8 @@ def coerceFromIo (v : Value) (t : Ty) : Except Err Value :=
   | .ulint, .lword w => .ok (.ulint w)
   | .lword, .lword w => .ok (.lword w)
   | .lreal, .lword w => .ok (.lreal w)
+  | .tick k, .dword w => if k.long then .error .typeMismatch else .ok (.tick k (k.scale * asSigned 32 w))
+  | .tick k, .lword w => if k.long then .ok (.tick k (asSigned 64 w)) else .error .typeMismatch
   | _, _ => .error .typeMismatch
 
 /-- `numeric::to_i64`. -/
@@ -326,12 +351,27 @@ def isNumeric : Value → Bool
   | .real _ | .lreal _ => true
   | _ => false
 
+/-- `Value::Enum(e) => Value::LInt(e.numeric_value)`: an enumerated variable is bound with its base
+type and published as its numeric value. -/
+def enumToLint : Value → Value
+  | .enum n => .lint n
+  | v => v
+
+/-- `ticks_to_dword` after `as_millis()` / `ticks()`: the count must fit an `i32` (`Overflow`
+otherwise); Rust's `/` truncates toward zero. -/
+def tickToIo (k : TKind) (n : Int) : Except Err Value :=
+  if k.long then .ok (.lword (asUnsigned 64 n))
+  else
+    let c := Int.tdiv n k.scale
+    if -2147483648 ≤ c ∧ c < 2147483648 then .ok (.dword (asUnsigned 32 c)) else .error .overflow
+
 /-- `coerce_to_io`. -/
-def coerceToIo (v : Value) (t : Ty) (s : Size) : Except Err Value :=
+def coerceToIo (v0 : Value) (t : Ty) (s : Size) : Except Err Value :=
   match expectedSize t with
   | none => .error .typeMismatch
   | some e =>
     if e ≠ s then .error .typeMismatch else
+    let v := enumToLint v0
     match t with
     | .bool => match v with | .bool f => .ok (.bool f) | _ => .error .typeMismatch
     | .sint => match v with
@@ -370,7 +410,10 @@ def coerceToIo (v : Value) (t : Ty) (s : Size) : Except Err Value :=
     | .lreal => match v with
       | .lreal x => .ok (.lword x)
       | _ => if isNumeric v then .error .unmodelled else .error .typeMismatch
-    | .time | .ltime | .other => .error .typeMismatch
+    | .tick k => match v with
+      | .tick k' n => if k' = k then tickToIo k n else .error .typeMismatch
+      | _ => .error .typeMismatch
+    | .other => .error .typeMismatch
 
 /-- `v` is a value of the elementary type `t` (the variant the interpreter stores for a variable
 declared with that type). -/
@@ -379,7 +422,29 @@ def Value.hasTy : Value → Ty → Bool
   | .int _, .int | .uint _, .uint | .word _, .word | .wchar _, .wchar
   | .dint _, .dint | .udint _, .udint | .dword _, .dword | .real _, .real
   | .lint _, .lint | .ulint _, .ulint | .lword _, .lword | .lreal _, .lreal => true
+  | .tick k _, .tick k' => decide (k = k')
   | _, _ => false
+
+/-- The value is exactly representable in the image: a 32-bit date/time value is a whole number of
+image counts (a TIME of whole milliseconds) and the count fits an `i32`.  Every value of the other
+types is. -/
+def Value.ioExact : Value → Prop
+  | .tick k n => k.long = true ∨ ∃ c : Int, n = k.scale * c ∧ -2147483648 ≤ c ∧ c < 2147483648
+  | _ => True
+
+/-- What a variable's value stands for in a binding of type `t`: an enum stands for the integer of
+its base type `t` with the enum's numeric value (when that type has such a value); any other value
+for itself. -/
+def Value.plain (t : Ty) : Value → Value
+  | .enum n =>
+    match t with
+    | .sint => .sint n | .int => .int n | .dint => .dint n | .lint => .lint n
+    | .usint => if 0 ≤ n then .usint n.toNat else .enum n
+    | .uint => if 0 ≤ n then .uint n.toNat else .enum n
+    | .udint => if 0 ≤ n then .udint n.toNat else .enum n
+    | .ulint => if 0 ≤ n then .ulint n.toNat else .enum n
+    | _ => .enum n
+  | v => v
 
 /-! ## Storage and bindings: `IoInterface::read_inputs` / `write_outputs` -/
 
@@ -459,17 +524,19 @@ def collect (s : Store) : List Binding → Io → Io × Option Err
       | .error e => (io, some e)
       | .ok io' => collect s bs io'
 
-/-- A binding as the compiler should produce them: typed with one of the 17 elementary types the
+/-- A binding as the compiler produces them: typed with one of the 25 elementary types the
 coercions know, the address size is the size of that type, the address is flat with a bit index
-0..7.  (Decidable guard of the `…_partial` theorems; the recorded findings are bindings outside it.) -/
+0..7. -/
 def Binding.wellTyped (b : Binding) : Bool :=
   match b.ty with
   | some t => expectedSize t == some b.addr.size && b.addr.valid
   | none => false
 
-/-- The variable of an out-binding holds an in-range value of the binding's type. -/
+/-- The variable of an out-binding holds an in-range, representable value of the binding's type, or an
+enum whose numeric value is such a value of the (base) type. -/
 def Binding.holdsTyped (b : Binding) (s : Store) : Prop :=
-  ∃ v t, b.ty = some t ∧ s b.target.var = some v ∧ v.hasTy t = true ∧ v.WF
+  ∃ v t, b.ty = some t ∧ s b.target.var = some v ∧ (v.plain t).hasTy t = true ∧ (v.plain t).WF ∧
+    (v.plain t).ioExact
 
 /-- A write to `a'` cannot change what is read at `a`: `a'` is hierarchical (separate map) or flat
 and disjoint from `a`. -/
@@ -496,8 +563,7 @@ def Ty.bytes : Ty → Nat
   | .int | .uint | .word | .wchar => 2
   | .dint | .udint | .dword | .real => 4
   | .lint | .ulint | .lword | .lreal => 8
-  | .time => 4
-  | .ltime => 8
+  | .tick k => if k.long then 8 else 4
   | .other => 0
 
 /-- `io_size_for_type` of a leaf type (`None`: "unsupported type for I/O binding", a compile error). -/
@@ -505,8 +571,9 @@ def Ty.ioSize? : Ty → Option Size
   | .bool => some .bit
   | .sint | .usint | .byte | .char => some .byte
   | .int | .uint | .word | .wchar => some .word
-  | .dint | .udint | .dword | .real | .time => some .dword
-  | .lint | .ulint | .lword | .lreal | .ltime => some .lword
+  | .dint | .udint | .dword | .real => some .dword
+  | .lint | .ulint | .lword | .lreal => some .lword
+  | .tick k => some (if k.long then .lword else .dword)
   | .other => none
 
 /-- `offset_address` for a flat base address: the size comes from the leaf's type, not from the
